@@ -333,6 +333,11 @@ class HomeKitConnection:
         if self.is_connected:
             return False
         self.closing = False
+        # A connection lost while close() was still waiting for the connector
+        # marked the connection as closed; re-opening undoes that as well,
+        # otherwise is_connected stays False forever and every later attempt
+        # opens one more connection on top of the previous one.
+        self.closed = False
         logger.debug("%s: Starting connector", self.name)
         self._start_connector()
         return True
